@@ -19,6 +19,11 @@ CHECKS = {
     note="Trusted: Lean kernel; translate/effects.py (pattern-based AST walk, cross-checked with nm); C++ const semantics and std::call_once/static-init semantics (one atomic step that happens-before later uses); ThreadSanitizer's happens-before analysis covers all schedules of the accesses that were executed. Performance/starvation and I/O interleaving on std::cerr are outside the model.",
     technique="Lean 4 proof of schedule independence (Bernstein) + decide over a translator-extracted effect table + ThreadSanitizer correspondence",
     design="3/C10"),
+ "C12": dict(
+    text="PARTIAL. The 63 closed-form `case` bodies, the generated classes' radial requests, the constants and the power functions are re-translated from the working tree on every run; the Lean radial model (closed forms, base-integral recursion, windowed 127-point quadrature with the early tail cut on top of the Bessel and quadrature models, the screening estimate) run at Float agrees BIT FOR BIT with the real RadialIntegral on value, estimate, quadrature and base integrals for every requested (N,l1,l2) x ECP power over the parameter regimes of the property (both sides of a*b = 0.002, small aA/bB, P2 = 0). Lean decides dispatch facts on the regenerated tables. The values themselves are checked against the mpmath integral of the definition (1e-6 rel + 1e-9 abs); every deviation is attributed with the bit-exact model's own trace (path, tail-cut index, arg-max) and counterfactuals (no tail cut, finest quadrature level, the translated formula in 60-digit arithmetic) to one of four recorded findings - anything else is a violation. This machinery found, and the repository now carries the repair of, a wrong closed-form case (10110).",
+    note="Not proved: recurrences = integrals (literature); conditioning and quadrature accuracy in doubles (recorded findings tailcut-left-end, closed-form-conditioning, estimate-not-a-bound, quadrature-premature-acceptance). Dawson and erf are external functions whose values the harness hands to the model. Trusted: Lean kernel, the four translators, harness/corr_radial.cpp, oracle/radial.py and oracle/radial_cases.py (mpmath).",
+    technique="translator-regenerated Lean model, bitwise correspondence at Float, mpmath oracle with trace-predicate known findings; Lean decide on dispatch tables",
+    design="3/C12"),
  "C14": dict(
     text="PARTIAL. Lean theorems (Props/C14.lean) on the structure of the evaluators: the regimes partition the arguments; the table row exists and the Taylor step is at most half a spacing; the all-orders and the single-order evaluator compute the same thing in the large-argument and table regimes and known closed forms (which differ for l>=2, below 1e-7^l) in the small regime; both large-argument loops are the asymptotic polynomial; the derivative tables use the coefficients of the Bessel recurrence; the Taylor remainder budget holds for TAYLOR_CUT and the table size as they are now (constants re-extracted every run). The Lean model, run at Float in the compiled driver, agrees BIT FOR BIT with the real BesselFunction on table rows, both evaluators and upper_bound at grid nodes, midpoints, both sides of 1e-7 and 16 and random arguments for l <= 15 - so the theorems are about the function the code computes. Accuracy itself (abs 1e-12 against mpmath's I_{l+1/2} at 40 digits) is checked on the implementation, not proved.",
     note="Not proved: that the series/recurrence/asymptotic form ARE e^{-z} i_l(z) and the derivative bound in the budget (Mathlib has no Bessel functions); rounding. Trusted: Lean kernel, translate/constants.py, harness/corr_bessel.cpp, oracle/bessel.py (mpmath), the platform libm's exp being the same in both drivers.",
